@@ -73,6 +73,7 @@ class Scenario:
         self.bys = None
         self.log_mark = 0
         self.preexisting: set = set()
+        self.dwell = None  # cfg "dwell": a timer of the body's own, so that time can pass even if the library has no timer
         if cfg.get("earlier") == "immediate":
             # the same gateway object was entered and left once before, the body leaving at once (the saver of
             # that context never got to run)
@@ -172,6 +173,9 @@ class Scenario:
                 self.enter_time = self.loop.time()
                 self.seen_at_entry = sorted(gw.nodes)
                 gw.nodes[9] = Node(9, 17, "2.1", sketch_name="added by body")
+                if self.cfg.get("dwell"):
+                    # the body stays inside for a little more than one save interval whatever the library schedules
+                    self.dwell = self.loop.call_later(INTERVAL + 1, lambda: None)
                 if self.cfg.get("body_read") == "eof":
                     # the peer has closed the connection: the body's read fails with a transport error
                     try:
@@ -213,8 +217,12 @@ class Scenario:
             evs.append("exit")
         if self.entered and not self.exit_fired and self.mutations < self.cfg.get("mutations", 0):
             evs.append("mutate")
-        if self.clock_fires < self.cfg.get("max_clock", MAX_CLOCK) and self.loop.next_timer() is not None and not self.main.done():
-            evs.append("clock")
+        nt = self.loop.next_timer()
+        if self.clock_fires < self.cfg.get("max_clock", MAX_CLOCK) and nt is not None and not self.main.done():
+            # time passes up to the body's own timer only when nothing is in flight (file operations take no virtual
+            # time; a save that has been started is not overtaken by the clock)
+            if nt is not self.dwell or (not jobs and self.loop.ready_count() == 0):
+                evs.append("clock")
         evs += transport_events(self)
         return evs
 
@@ -382,6 +390,8 @@ class Scenario:
             if left:
                 names = sorted(getattr(t.get_coro(), "__qualname__", repr(t)) for t in left)
                 bad("task-left-running", f"background tasks still running after the context ended: {names}")
+            if self.dwell is not None:
+                self.dwell.cancel()
             if self.loop.next_timer() is not None:
                 bad("timer-left", "a timer is still scheduled after the context ended")
             unret = [c for c in self.loop.collect_unretrieved()]
@@ -558,6 +568,10 @@ def configs(ctx: core.Ctx) -> list:
     out.append({"body": "return", "connect": "ok", "disconnect": "ok", "file": "present", "transport": "script", "earlier": "immediate"})
     out.append({"body": "raise", "connect": "ok", "disconnect": "ok", "file": "missing", "transport": "script", "earlier": "immediate"})
     out.append({"body": "return", "connect": "ok", "disconnect": "ok", "file": "present", "transport": "script", "earlier": "save-failed", "max_clock": 1})
+    # eleventh wave: the body of the second context (and of a first one) stays inside for more than one save interval by
+    # a timer of its own - the periodic save must come whether or not the library has a timer pending
+    out.append({"body": "return", "connect": "ok", "disconnect": "ok", "file": "present", "transport": "script", "earlier": "immediate", "dwell": True, "max_clock": 2})
+    out.append({"body": "return", "connect": "ok", "disconnect": "ok", "file": "present", "transport": "script", "dwell": True, "max_clock": 2})
     out.append({"body": "return", "connect": "ok", "disconnect": "ok", "file": "present", "transport": "script", "bystander": True, "max_clock": 1})
     out.append({"body": "return", "connect": "fail", "disconnect": "ok", "file": "present", "transport": "script", "bystander": True, "max_clock": 1})
     return out
